@@ -66,6 +66,9 @@ def oracle(op, obs):
                 return ("reqdec/unsupported", "media type %r is not answered with 415/unsupported_media_type" % ct, "unsupported 415")
         elif f.get("dec") != want:
             return ("reqdec/table", "request media type %r decoded as %s" % (ct, f.get("dec")), want)
+    elif toks[0] == "notfound":
+        if obs != "nf=ok":
+            return ("notfound/" + obs.split("=", 1)[1].split(":")[0], "the muxer's reply to an unrouted request with Accept %r: %s" % (dec(toks[1]), obs), "nf=ok")
     elif toks[0] == "keep":
         if obs != "keep=ok":
             return ("decode/value-changed-by-later-decode", "a value decoded from a %s body (%s side) %s after another body was decoded" %
